@@ -31,6 +31,8 @@ type ConfCase struct {
 	Faults []Fault       `json:"faults,omitempty"`
 	Append []string      `json:"append,omitempty"` // types appended after NewSchema, in this order
 	Omit   []string      `json:"omit,omitempty"`   // types left out of NewSchema that arrive only through an appended type
+	// OnlyRoots: no types are supplied explicitly, the schema is what the roots reach
+	OnlyRoots bool `json:"onlyRoots,omitempty"`
 }
 
 var c11Ops = []string{
@@ -680,7 +682,7 @@ func c11Oracle(c *ConfCase) (msg string, accepted bool) {
 		b = &libBuilder{m: c.Schema, faults: c.Faults}
 		cfg := b.build()
 		for _, td := range c.Schema.Types {
-			skip := false
+			skip := c.OnlyRoots
 			for _, o := range omit {
 				skip = skip || o == td.Name
 			}
@@ -714,6 +716,10 @@ func c11Oracle(c *ConfCase) (msg string, accepted bool) {
 		return fmt.Sprintf("schema construction panicked: %s\n  faults: %+v", pan, c.Faults), false
 	}
 	if err != nil {
+		if len(c.Faults) == 0 && c.OnlyRoots {
+			stats.R.Exclude("roots_only_configuration_rejected")
+			return "", false // what the roots reach need not be a valid schema on its own
+		}
 		if len(c.Faults) == 0 {
 			return fmt.Sprintf("HARNESS/valid configuration rejected: %v", err), false
 		}
@@ -893,7 +899,10 @@ func TestC11(t *testing.T) {
 			}
 			c.Faults = append(c.Faults, f)
 		}
-		drawAppend(rt, s, &c.Append, &c.Omit)
+		c.OnlyRoots = gen.Chance(rt, 25, "onlyRoots")
+		if !c.OnlyRoots {
+			drawAppend(rt, s, &c.Append, &c.Omit)
+		}
 		msg, accepted := c11Oracle(c)
 		for _, f := range c.Faults {
 			stats.R.Class("fault_" + f.Op)
